@@ -87,4 +87,11 @@ TEXT = {
                  "class pairs and both sides, in each contact model. Exploration.",
         "note": "Trusted: geom.hpp; the classification of 'forbidden side' per class pair follows the statement (inside an ordinary cell, outside an enclosing ECM, outside the enclosing cell for a nucleus).",
     },
+    "C08": {
+        "technique": "rapidcheck stateful (history) property testing on the real solver with identity / cross-reference invariants after every iteration, under ASan + _GLIBCXX_ASSERTIONS",
+        "level": "Divisions and removals are forced at generated list positions and iterations; position index == list position, id uniqueness, "
+                 "monotone fresh ids, coupling targets, face owners and face-type indices are recomputed after every iteration for the three "
+                 "contact models. Found the missing renumbering after removals and the unchecked face-type count (both fixed). Exploration.",
+        "note": "Trusted: the harness invariants. Mid-iteration uses of references are only observable through the sanitizers.",
+    },
 }
